@@ -261,12 +261,50 @@ R(v, e) == [v |-> v, env |-> e]
 Set(e, name, v) == [e EXCEPT ![name] = v]
 IsVarIn(t, e) == t.n = "id" /\ t.v \in DOMAIN e
 
+---------------------------------------------------------------------------
+(* cast / declaration target types (spellings) and what a conversion to them does to a small int.
+   Results of unsigned and 64-bit types are only defined here while they stay non-negative and
+   small; wider effects are left to the g++ original-versus-printed comparison of the check.   *)
+T_INT == <<"i","n","t">>
+T_CINT == <<"c","o","n","s","t","SP","i","n","t">>
+T_LONG == <<"l","o","n","g">>
+T_LONGINT == <<"l","o","n","g","SP","i","n","t">>
+T_CLONG == <<"c","o","n","s","t","SP","l","o","n","g">>
+T_LL == <<"l","o","n","g","SP","l","o","n","g">>
+T_UINT == <<"u","n","s","i","g","n","e","d","SP","i","n","t">>
+T_ULONG == <<"l","o","n","g","SP","u","n","s","i","g","n","e","d","SP","i","n","t">>
+T_ULL == <<"u","n","s","i","g","n","e","d","SP","l","o","n","g","SP","l","o","n","g">>
+T_SHORT == <<"s","h","o","r","t">>
+T_USHORT == <<"u","n","s","i","g","n","e","d","SP","s","h","o","r","t">>
+T_UCHAR == <<"u","n","s","i","g","n","e","d","SP","c","h","a","r">>
+T_SCHAR == <<"s","i","g","n","e","d","SP","c","h","a","r">>
+T_CHAR == <<"c","h","a","r">>
+T_CCHAR == <<"c","o","n","s","t","SP","c","h","a","r">>
+T_INTP == <<"i","n","t","SP","*">>
+T_CCHARP == <<"c","o","n","s","t","SP","c","h","a","r","SP","*">>
+Wrap8U  == {T_UCHAR}
+Wrap8S  == {T_SCHAR, T_CHAR, T_CCHAR}
+Wrap16U == {T_USHORT}
+Wrap16S == {T_SHORT}
+NonNegTypes == {T_UINT, T_ULONG, T_ULL}
+SameTypes == {T_INT, T_CINT, T_LONG, T_LONGINT, T_CLONG, T_LL}
+ArithTypes == Wrap8U \cup Wrap8S \cup Wrap16U \cup Wrap16S \cup NonNegTypes \cup SameTypes
+PointerTypes == {T_INTP, T_CCHARP}
+ConvertTo(ty, v) ==
+  CASE ty \in Wrap8U  -> v % 256
+    [] ty \in Wrap8S  -> ((v + 128) % 256) - 128
+    [] ty \in Wrap16U -> v % 65536
+    [] ty \in Wrap16S -> ((v + 32768) % 65536) - 32768
+    [] ty \in NonNegTypes -> IF v < 0 THEN Undef ELSE v
+    [] ty \in SameTypes -> v
+    [] OTHER -> Undef
+
 RECURSIVE Eval(_, _)
 Eval(t, e) ==
   CASE t.n = "id" -> IF IsVarIn(t, e) THEN R(e[t.v], e) ELSE R(Undef, e)
-    [] t.n = "lit" -> R(IF t.k = "str" THEN Undef ELSE t.val, e)
+    [] t.n = "lit" -> R(IF t.k = "str" THEN Undef ELSE Chk(t.val), e)     \* literals beyond the small range have no value here
     [] t.n = "paren" -> Eval(t.x, e)
-    [] t.n = "cast" -> Eval(t.x, e)                       \* (int), (long): identity on small ints
+    [] t.n = "cast" -> LET x == Eval(t.x, e) IN IF x.v = Undef THEN R(Undef, e) ELSE R(Chk(ConvertTo(t.ty, x.v)), x.env)
     [] t.n = "sizeof" -> R(IF t.x.n = "lit" /\ t.x.k = "str" THEN t.x.val * (Len(t.x.codes) + 1) ELSE 4, e)   \* operand not evaluated
     [] t.n = "index" ->
          LET i == Eval(t.i, e) IN
@@ -352,7 +390,8 @@ IsName(t, names) == t.n = "id" /\ t.v \in names
 WellTyped(t, names) ==
   CASE t.n = "id" -> t.v \in names
     [] t.n = "lit" -> t.k # "str"
-    [] t.n \in {"paren", "cast"} -> WellTyped(t.x, names)
+    [] t.n = "paren" -> WellTyped(t.x, names)
+    [] t.n = "cast" -> t.ty \in ArithTypes /\ WellTyped(t.x, names)
     [] t.n = "sizeof" -> (t.x.n = "lit" /\ t.x.k = "str") \/ WellTyped(t.x, names)
     [] t.n = "index" -> t.a.n = "lit" /\ t.a.k = "str" /\ WellTyped(t.i, names)
     [] t.n = "call" -> t.f = Id(<<"f">>) /\ Len(t.args) = 2 /\ \A k \in 1..Len(t.args) : WellTyped(t.args[k], names)
